@@ -61,6 +61,11 @@ theorem extendGens_frame (s : St σ) : FrameSel s (extendGens P s).1 := by
   repeat' split
   all_goals exact ⟨_, _, _, _, _, rfl⟩
 
+theorem extendGens_decApp_only (s : St σ) : ∃ app, (extendGens P s).1 = { s with decApp := app } := by
+  unfold extendGens
+  repeat' split
+  all_goals exact ⟨_, rfl⟩
+
 theorem FrameSel.trans {s a b : St σ} (h1 : FrameSel s a) (h2 : FrameSel a b) : FrameSel s b := by
   obtain ⟨_, _, _, _, _, rfl⟩ := h1
   obtain ⟨_, _, _, _, _, rfl⟩ := h2
@@ -200,6 +205,18 @@ theorem decryptRest_cids (s : St σ) (p : Pkt) (d? : Option Dec) : CidsMono s (d
     all_goals first
       | exact h2
       | exact h2.trans (handleFrames_cids P _ p _)
+
+/-- everything after the decryptor lookup: packet-number tables, then what `handle_frame` may change -/
+theorem decryptRest_frame (s : St σ) (p : Pkt) (d? : Option Dec) :
+    ∃ s1, FramePn s s1 ∧ FrameH s1 (decryptRest P s p d?).1 := by
+  unfold decryptRest
+  have h2 := getFullPn_frame s p
+  split <;> (rename_i heq2; rw [heq2] at h2)
+  · exact ⟨_, h2, FrameH.refl _⟩
+  · repeat' split
+    all_goals first
+      | exact ⟨_, h2, FrameH.refl _⟩
+      | exact ⟨_, h2, handleFrames_frame P _ p _⟩
 
 theorem decryptPacket_cids (s : St σ) (p : Pkt) : CidsMono s (decryptPacket P s p).1 := by
   unfold decryptPacket
